@@ -733,7 +733,11 @@ async def _run_sweep(loop, case: dict, root: str):
 
         async def on_transfer_state_changed(self, transfer, old, new):
             ident = _tid(transfer)
-            await self._act('state', f'state listener {ident!r} {old.value}->{new.value}', told=[list(ident), new.value])
+            # "told" only counts for the object the manager lists (a detached transfer may share its identity with a
+            # newer listed one)
+            listed = any(t is transfer for t in mgr.transfers)
+            await self._act('state', f'state listener {ident!r} {old.value}->{new.value}',
+                            told=[list(ident), new.value] if listed else None)
 
     app = SweepApp()
     mgr, bus = _new_manager(data, users, app)
